@@ -132,7 +132,7 @@ def run(ctx):
     check_pod(ctx, "podGac", 12, ctx.seed)
     check_pod(ctx, "podLac", 6, ctx.seed)
     if ctx.thorough:
-        for j in range(20):
+        for j in range(150):
             check_klm(ctx, "klmGac", 70 + j, kinds[j % len(kinds)], ctx.seed * 1000 + 100 + j, drv)
             check_klm(ctx, "klmLac", 12, kinds[(j + 3) % len(kinds)], ctx.seed * 1000 + 200 + j, drv)
     if not ctx.driver_ok:
